@@ -214,12 +214,14 @@ def r4_order(repo):
             c = subs[0][1]
             lp = [a for a in ancestors(c) if isinstance(a, ast.For)]
             sub_ok = bool(lp) and src(lp[0].iter) == "self.filter_patterns" and \
+                len(c.args) == 3 and not [k for k in c.keywords if k.arg in ("count", None)] and \
                 src(c.args[0]) == src(lp[0].target) and const_value(c.args[1]) == "" and \
                 src(c.args[2]) == fd.args[1].id and not flat_guards(c, stop=lp[0]) and \
                 not any(isinstance(n, (ast.Break, ast.Continue)) for n in iter_own_nodes(lp[0]))
         ok = sub_ok and len(inits) == 1 and len(defs) == 2
-        msg = ("the text given to findall is `output` with every filter pattern removed by re.sub(p, '', text) in a "
-               "loop over self.filter_patterns: %s (definitions reaching findall's argument: %d)" % (sub_ok, len(defs)))
+        msg = ("the text given to findall is `output` with EVERY occurrence of every filter pattern removed by "
+               "re.sub(p, '', text) (exactly three positional arguments: a fourth one is `count` and limits the removals) "
+               "in a loop over self.filter_patterns: %s (definitions reaching findall's argument: %d)" % (sub_ok, len(defs)))
     obs.append(Ob("C14-R4", "BaseCompiler.analyze_compiler_output:filters-applied-before-matching", _w(f), ok, msg))
     # grouping
     apps = [c for c in calls_in(fn) if call_name(c) == "append" and isinstance(c.func.value, ast.Subscript)]
@@ -359,6 +361,23 @@ def r5_lookup_key(repo):
         ok = fp == "utils.path2set(cli_args.error_filter_patterns)"
     obs.append(Ob("C14-R5", "check_oracle:compiler-input-and-filters", _w(co), ok,
                   "compiler is constructed on <batch>/src with the user's filter patterns (%s)" % fp))
+    # the diagnostics map is consulted by exact membership of the program's path
+    an = [n for n in iter_own_nodes(co.node) if isinstance(n, ast.Assign) and isinstance(n.value, ast.Call) and
+          call_name(n.value) == "analyze_compiler_output"]
+    fname = src(an[0].targets[0].elts[0]) if an and isinstance(an[0].targets[0], ast.Tuple) else (src(an[0].targets[0]) if an else None)
+    odd = []
+    for n in iter_own_nodes(co.node):
+        if isinstance(n, ast.Name) and n.id == fname and isinstance(n.ctx, ast.Load):
+            par = n._parent
+            if isinstance(par, ast.Compare) and len(par.ops) == 1 and isinstance(par.ops[0], (ast.In, ast.NotIn)) and \
+                    par.comparators[0] is n and isinstance(par.left, ast.Name):
+                continue
+            if isinstance(par, ast.Subscript) and par.value is n and isinstance(par.slice, ast.Name):
+                continue
+            odd.append("line %d: `%s`" % (n.lineno, src(par)[:60]))
+    obs.append(Ob("C14-R5", "check_oracle:diagnostics-looked-up-by-exact-path", _w(co), fname is not None and not odd,
+                  "the map returned by analyze_compiler_output may only be consulted as `<path> in failed` / `failed[<path>]` "
+                  "with the program's own path (a suffix / fuzzy lookup moves one file's verdict to another): %s" % odd))
     for lang, (comp, _t) in sorted(_lang_tables(repo).items()):
         init = comp.methods.get("__init__")
         joins = [n for n in iter_own_nodes(init.node) if isinstance(n, ast.Call) and
@@ -372,13 +391,43 @@ def r5_lookup_key(repo):
     return obs
 
 
+CRASH_MARKERS = {"java": "java.lang", "kotlin": "org.jetbrains.", "groovy": "at org.codehaus.groovy", "scala": "at dotty"}
+
+
+def r6_crash_pattern(repo):
+    obs = []
+    for lang, (comp, _t) in sorted(_lang_tables(repo).items()):
+        pat, flags, toks = _regex(comp, "CRASH_REGEX")
+        tree = R.parse(pat, flags)
+        anchors = [str(op) for op, av in tree if str(op) == "AT"]
+        marker = CRASH_MARKERS[lang]
+        plain = pat.replace("\\", "")
+        i = plain.find(marker)
+        lead = plain[:i] if i >= 0 else plain
+        lead_ok = i >= 0 and all(ch in "(.*?" for ch in lead)
+        first = (i, i, marker) if i >= 0 else None
+        ok = not anchors and lead_ok
+        obs.append(Ob("C14-R6", "%s:crash-pattern-finds-the-marker-anywhere" % lang, _w(comp), ok,
+                      "CRASH_REGEX of %s must be an unanchored search for the stack-trace marker %r (it may be preceded by "
+                      "other text on the line, e.g. `Exception in thread \"main\" java.lang...` or `Caused by: ...`): anchors %s, "
+                      "first mandatory literal %r" % (comp.name, marker, anchors, first[2] if first else None), {"pattern": pat}))
+    f = repo.method("src.compilers.base.BaseCompiler", "analyze_compiler_output", inherited=False)
+    cs = [c for c in calls_in(f.node) if src(c.func) in ("re.search", "re.match", "re.fullmatch") and
+          c.args and src(c.args[0]) == "self.CRASH_REGEX"]
+    obs.append(Ob("C14-R6", "crash-pattern-applied-with-re.search-to-the-whole-output", _w(f),
+                  len(cs) == 1 and src(cs[0].func) == "re.search" and src(cs[0].args[1]) == f.params[1] and len(cs[0].args) == 2,
+                  "the crash test must be re.search(self.CRASH_REGEX, output)"))
+    return obs
+
+
 def rules():
     return [
         RuleSpec("C14-R1", "file group: returned by get_filename, extension, path alphabet", 8, r1_file_group),
         RuleSpec("C14-R2", "mandatory severity literal (warnings/notes cannot match)", 4, r2_severity),
         RuleSpec("C14-R3", "message group distinct from file group", 4, r3_message_group),
         RuleSpec("C14-R4", "order of operations in analyze_compiler_output / check_oracle", 9, r4_order),
-        RuleSpec("C14-R5", "oracle key = path the compiler is given", 10, r5_lookup_key),
+        RuleSpec("C14-R5", "oracle key = path the compiler is given", 11, r5_lookup_key),
+        RuleSpec("C14-R6", "crash pattern: unanchored search for the stack-trace marker", 5, r6_crash_pattern),
     ]
 
 
@@ -435,6 +484,18 @@ def _v_use_failed_before_crash(tree):
     V.insert_before(tree, iff, V.parse_stmts("nfailed = len(failed)"))
 
 
+def _v_sub_count(tree):
+    f = V.find_def(tree, "BaseCompiler.analyze_compiler_output")
+    c = V.one([n for n in ast.walk(f) if V.is_call_named(n, "sub")])
+    c.args.append(V.parse_expr("re.MULTILINE"))
+
+
+def _v_fuzzy_lookup(tree):
+    f = V.find_def(tree, "check_oracle")
+    cmp_ = V.one([n for n in ast.walk(f) if isinstance(n, ast.Compare) and ast.unparse(n) == "program in failed"])
+    V.replace_node(tree, cmp_, V.parse_expr("any(k.endswith(os.path.basename(os.path.dirname(program)) + '/' + os.path.basename(program)) for k in failed)"))
+
+
 def _t_kotlin_rename(tree):
     f = V.find_def(tree, "BaseCompiler.analyze_compiler_output")
     V.rename_local(f, "filtered_output", "text")
@@ -459,6 +520,10 @@ def variants():
         V.Variant("groovy: stack overflow overrides diagnostics", "src/compilers/groovy.py", _v_groovy_crash_always, {"C14-R4"}),
         V.Variant("check_oracle touches failed before crash test", "hephaestus.py", _v_use_failed_before_crash, {"C14-R4"}),
         V.Variant("ncp oracle key uses incorrect filename", "hephaestus.py", _v_dst_file_incorrect_name, {"C14-R5"}),
+        V.Variant("re.sub with a 4th positional argument (count)", "src/compilers/base.py", _v_sub_count, {"C14-R4"}),
+        V.Variant("java: crash pattern anchored at line start", "src/compilers/java.py",
+                  _set_regex("JavaCompiler", "CRASH_REGEX", lambda p: "^" + p), {"C14-R6"}),
+        V.Variant("check_oracle looks files up by path suffix", "hephaestus.py", _v_fuzzy_lookup, {"C14-R5"}),
         V.Variant("twin: rename locals in analyze_compiler_output", "src/compilers/base.py", _t_kotlin_rename, None, twin=True),
         V.Variant("twin: whole tree reformatted by ast.unparse", None, None, None, twin=True),
     ]
